@@ -34,7 +34,7 @@ CONSTANTS Buf,        \* firstPacketSize (scaled)
           Downs,      \* target reachability: "up", "refuse", "closeatonce"
           AuthClasses,\* what a complete small TLS record can be
           HiddenClasses, \* what a complete short HTTP request can be
-          PortCfgs,   \* redirect-port configurations: records [cfg, lp, first]
+          PortMode,   \* "all": every redirect-port configuration below; "one": RedirAddr with a port only.  Records [cfg, lp, first]:
                       \*   cfg   "fixed" = RedirAddr names a port (P), "none" = it does not: the target port is the
                       \*           port the peer connected to (dispatcher.go:136-139, conn.LocalAddr)
                       \*   lp    "A" | "B": the listener (bind port) this connection arrived on; one State serves both
@@ -43,6 +43,10 @@ CONSTANTS Buf,        \* firstPacketSize (scaled)
           Dev         \* deviations (negative configurations)
 
 None == 0 - 1
+
+PortCfgs == IF PortMode = "all"
+            THEN [cfg : {"fixed", "none"}, lp : {"A", "B"}, first : {"none", "A", "B"}]
+            ELSE {[cfg |-> "fixed", lp |-> "A", first |-> "none"]}
 
 VARIABLES case,      \* the shape of the peer's stream (constant per behaviour)
           sent,      \* bytes of the stream the peer has sent so far
